@@ -285,7 +285,11 @@ def c15_rings(tier, seed):
                 t1, t2 = best(n1, t1), best(n2, t2)
             rows.append({"shape": "time-linearity", "of": label, "n1": n1, "n2": n2, "us1": t1, "us2": t2,
                          "ratio": round(t2 / max(t1, 1), 2), "limit": limit})
-            if t2 / max(t1, 1) > limit and t2 > 300000:
+            # the timing verdict is used only when instructions could not be counted (no valgrind): with
+            # the deterministic count available it is recorded as supporting data, since cache and load
+            # effects make it the noisier of the two measurements of the same quantity
+            counted = bool(i1 and i2 and i1 > 0)
+            if not counted and t2 / max(t1, 1) > limit and t2 > 300000:
                 hits.append({"type": "oracle", "hid": name, "line": "%s sizes %d -> %d" % (label, n1, n2), "idx": 0,
                              "oracle": "C15:superlinear-cpu-time:%dus->%dus" % (t1, t2), "disc": "1", "d4": "0", "shrinkable": False})
         if depths and max(depths) > min(depths) + 1024:
